@@ -25,7 +25,7 @@ def run(patch):
             r = subprocess.run(["patch", "-p1", "-s", "-d", work, "-i", patch], capture_output=True, text=True)
             if r.returncode != 0:
                 return name, None, ["does not apply: " + r.stdout[:200] + r.stderr[:200]]
-        r = subprocess.run(["/verif/bin/govc", "check", "-repo", work, "-property", "all", "-no-evidence", "-outdir", os.path.join(scratch, "out")], capture_output=True, text=True, env=ENV)
+        r = subprocess.run([os.environ.get("GOVC_BIN", "/verif/bin/govc"), "check", "-repo", work, "-property", "all", "-no-evidence", "-outdir", os.path.join(scratch, "out")], capture_output=True, text=True, env=ENV)
         lines = [l for l in r.stdout.splitlines() + r.stderr.splitlines() if l.startswith(("VIOLATION", "UNDECIDED", "ENGINE-ERROR"))]
         return name, r.returncode, lines
     finally:
